@@ -20,7 +20,15 @@
   `*_multi_safe` any fault set)
   * `sdr_chunk_*`            busy/timeout retry + reservation renewal (∀ budgets)
   * `clear_repository_*`     reservation renewal while erasing (∀ budgets)
-  * `hpm_and_wait_*`, `upload_binary_*`   HPM in-progress polling (∀ block lists)
+  * `hpm_and_wait_*`, `upload_binary_*`   HPM in-progress polling (∀ block lists), for the INTENDED
+                             wait (Model/ProgHpm.lean `waitLongV true`): a final code other than 00h in
+                             Get upgrade status, or 80h still reported when the polls run out, raises HpmError
+  * `hpm_long_outcome_never_mistaken`, `upload_binary_long_outcome_never_mistaken`   (Spec/HpmLong.lean `LongSafe`)
+                             a request answered 80h whose status script does not report success NEVER
+                             lets the operation complete normally - under any further fault set;
+    `hpm_long_failure_is_hpm_error`, `upload_binary_long_failure_is_hpm_error`   one fault: exactly HpmError
+  * `hpm_and_wait_as_shipped_counterexample`, `upload_binary_as_shipped_counterexample`   the pinned wait
+                             returns normally WHATEVER the status says (failed, still in progress)
   * `read_fru_exact`, `read_fru_*`, `op_read_fru_data_*`, `read_fru_range_multi_safe`,
     `read_fru_area_multi_safe`   FRU size back-off (∀ areas, sizes, offsets); the area reader
   * `sel_entry_exact`, `sel_entry_multi_safe`, `sel_entry_fault_safe`   get_sel_entry: FFh → 16 → 15 …
@@ -71,6 +79,7 @@ import PyIpmi.Lemmas.ProgSel
 import PyIpmi.Lemmas.ProgSdr
 import PyIpmi.Lemmas.ProgCompose
 import PyIpmi.Lemmas.ProgOps
+import PyIpmi.Lemmas.ProgHpmWait
 namespace PyIpmi.Props.C08
 open PyIpmi PyIpmi.Prog PyIpmi.Prog.Ops PyIpmi.Spec.FaultDevice PyIpmi.Gen.ApiShapes
 
@@ -165,21 +174,110 @@ theorem clear_repository_fault_safe (resCanceled : Nat) (reserve : Prog Nat)
     (clearRepository_fs resCanceled reserve busy base _ mkInit mkStatus
       ((faultSafe_iff_on _ _).mp hfs) res hres budget)
 
-/-- hpm.*_and_wait: the operation and the status query succeed on the fault-free device. -/
+/-- hpm.*_and_wait (intended wait): the operation and the status query succeed on the fault-free
+device; whatever the status then says about the long duration command. -/
 theorem hpm_and_wait_fault_safe (base : Req → Rsp) (inProgress : Nat) (r status : Req)
-    (busy : Rsp → Bool) (polls : Nat) (hok : (base r).cc = 0) (hst : (base status).cc = 0) :
+    (busy failed : Rsp → Bool) (polls : Nat) (hok : (base r).cc = 0) (hst : (base status).cc = 0) :
     FaultSafe base (andWait inProgress ((sendChecked r).bind fun _ => .done ())
-      (waitLong status busy polls)) :=
+      (waitLongV true status busy failed polls)) :=
   (faultSafe_iff_on _ _).mpr
-    (andWait_fs base _ inProgress r _ hok (fun n => waitLong_pure_ok base status busy hst polls n))
+    (andWait_fs' base _ inProgress r _ hok (fun n => waitLongV_pure base true status busy failed hst polls n))
 
-/-- hpm.upload_binary, for every list of blocks. -/
+/-- hpm.upload_binary (intended wait), for every list of blocks. -/
 theorem upload_binary_fault_safe (base : Req → Rsp) (inProgress : Nat) (status : Req)
-    (busy : Rsp → Bool) (polls : Nat) (blocks : List Req)
+    (busy failed : Rsp → Bool) (polls : Nat) (blocks : List Req)
     (hok : ∀ b ∈ blocks, (base b).cc = 0) (hst : (base status).cc = 0) :
-    FaultSafe base (uploadBinary inProgress (waitLong status busy polls) blocks) :=
+    FaultSafe base (uploadBinary inProgress (waitLongV true status busy failed polls) blocks) :=
   (faultSafe_iff_on _ _).mpr
-    (uploadBinary_fs base _ inProgress _ (fun n => waitLong_pure_ok base status busy hst polls n) blocks hok)
+    (uploadBinary_fs' base _ inProgress _ (fun n => waitLongV_pure base true status busy failed hst polls n)
+      blocks hok)
+
+/-! ### the outcome of a long duration command (Spec/HpmLong.lean) -/
+
+/-- The request of a `*_and_wait` operation is answered 80h and the BMC's Get upgrade status does
+NOT report that the command ended with 00h (it failed, or is in progress for as long as the
+requester polls): the operation never completes normally - whatever else is faulted. -/
+theorem hpm_long_outcome_never_mistaken (base : Req → Rsp) (inProgress : Nat) (r status : Req)
+    (busy failed : Rsp → Bool) (polls : Nat) (φ : Nat → Option Nat) (hφ : NonZero φ) (n : Nat)
+    (h80 : φ n = some inProgress) :
+    Spec.HpmLong.LongSafe (Spec.HpmLong.longEnd busy failed (base status))
+      (outcome (andWait inProgress ((sendChecked r).bind fun _ => .done ())
+        (waitLongV true status busy failed polls)) (faultsDev base φ) n) := by
+  intro hok
+  apply Classical.byContradiction
+  intro hend
+  rw [outcome_andWait, faultsDev_snd_some _ _ _ _ _ h80, faultsDev_fst] at hok
+  have hne : inProgress ≠ 0 := hφ n inProgress h80
+  simp only [hne, if_false, if_true] at hok
+  exact waitLongV_strict_never_ok base status busy failed hend φ hφ polls (n + 1) hok
+
+/-- One fault: the outcome is exactly HpmError. -/
+theorem hpm_long_failure_is_hpm_error (base : Req → Rsp) (inProgress : Nat) (r status : Req)
+    (busy failed : Rsp → Bool) (polls n : Nat) (hne : inProgress ≠ 0) (hst : (base status).cc = 0)
+    (hend : Spec.HpmLong.longEnd busy failed (base status) ≠ .succeeded) :
+    outcome (andWait inProgress ((sendChecked r).bind fun _ => .done ())
+      (waitLongV true status busy failed polls)) (faultDev base n inProgress) n = .error .hpmError := by
+  rw [outcome_andWait, faultDev_snd_eq, faultDev_fst]
+  simp only [hne, if_false, if_true]
+  rw [outcome_fault_past base _ (n + 1) n inProgress (by omega)]
+  exact waitLongV_strict_pure_hpm base status busy failed hst hend polls (n + 1)
+
+/-- hpm.upload_binary: the FIRST block of the (remaining) upload is answered 80h and the status
+does not report success - no normal completion, under any further faults. -/
+theorem upload_binary_long_outcome_never_mistaken (base : Req → Rsp) (inProgress : Nat) (status : Req)
+    (busy failed : Rsp → Bool) (polls : Nat) (b : Req) (rest : List Req)
+    (φ : Nat → Option Nat) (hφ : NonZero φ) (n : Nat) (h80 : φ n = some inProgress) :
+    Spec.HpmLong.LongSafe (Spec.HpmLong.longEnd busy failed (base status))
+      (outcome (uploadBinary inProgress (waitLongV true status busy failed polls) (b :: rest))
+        (faultsDev base φ) n) := by
+  intro hok
+  apply Classical.byContradiction
+  intro hend
+  rw [uploadBinary] at hok
+  cases hw : outcome (andWait inProgress ((sendChecked b).bind fun _ => .done ())
+      (waitLongV true status busy failed polls)) (faultsDev base φ) n with
+  | ok u =>
+    cases u
+    exact hend (hpm_long_outcome_never_mistaken base inProgress b status busy failed polls φ hφ n h80 hw)
+  | error e =>
+    rw [outcome_bind_error hw] at hok
+    cases hok
+
+theorem upload_binary_long_failure_is_hpm_error (base : Req → Rsp) (inProgress : Nat) (status : Req)
+    (busy failed : Rsp → Bool) (polls n : Nat) (b : Req) (rest : List Req)
+    (hne : inProgress ≠ 0) (hst : (base status).cc = 0)
+    (hend : Spec.HpmLong.longEnd busy failed (base status) ≠ .succeeded) :
+    outcome (uploadBinary inProgress (waitLongV true status busy failed polls) (b :: rest))
+      (faultDev base n inProgress) n = .error .hpmError := by
+  rw [uploadBinary]
+  exact outcome_bind_error
+    (hpm_long_failure_is_hpm_error base inProgress b status busy failed polls n hne hst hend)
+
+/-- AS SHIPPED (`waitLongV false` = the loop that returns at the first status that is not 80h and
+falls off its end at the time-out): the operation completes normally WHATEVER the status says -
+also when the long duration command failed or never ended. -/
+theorem hpm_and_wait_as_shipped_counterexample (base : Req → Rsp) (inProgress : Nat) (r status : Req)
+    (busy failed : Rsp → Bool) (polls n : Nat) (hne : inProgress ≠ 0) (hst : (base status).cc = 0) :
+    outcome (andWait inProgress ((sendChecked r).bind fun _ => .done ())
+      (waitLongV false status busy failed polls)) (faultDev base n inProgress) n = .ok () := by
+  rw [outcome_andWait, faultDev_snd_eq, faultDev_fst]
+  simp only [hne, if_false, if_true]
+  rw [outcome_fault_past base _ (n + 1) n inProgress (by omega)]
+  exact waitLongV_shipped_pure_ok base status busy failed hst polls (n + 1)
+
+/-- … so `LongSafe` fails for it on every BMC whose status does not report success. -/
+theorem upload_binary_as_shipped_counterexample (base : Req → Rsp) (inProgress : Nat) (status : Req)
+    (busy failed : Rsp → Bool) (polls n : Nat) (b : Req) (hne : inProgress ≠ 0) (hst : (base status).cc = 0)
+    (hend : Spec.HpmLong.longEnd busy failed (base status) ≠ .succeeded) :
+    ¬ Spec.HpmLong.LongSafe (Spec.HpmLong.longEnd busy failed (base status))
+      (outcome (uploadBinary inProgress (waitLongV false status busy failed polls) [b])
+        (faultDev base n inProgress) n) := by
+  intro h
+  apply hend
+  apply h
+  rw [uploadBinary, outcome_bind_ok
+    (hpm_and_wait_as_shipped_counterexample base inProgress b status busy failed polls n hne hst)]
+  rfl
 
 /-- fru.read_fru_data without faults returns exactly store[off : area], whatever the request
 size, against a consistent storage. -/
@@ -235,19 +333,21 @@ theorem clear_repository_multi_safe (Φ : (Nat → Option Nat) → Prop) (resCan
   clearRepository_ms resCanceled reserve busy base Φ mkInit mkStatus hfs res hres budget
 
 theorem hpm_and_wait_multi_safe (Φ : (Nat → Option Nat) → Prop) (base : Req → Rsp) (inProgress : Nat)
-    (r status : Req) (busy : Rsp → Bool) (polls : Nat) (hok : (base r).cc = 0)
+    (r status : Req) (busy failed : Rsp → Bool) (polls : Nat) (hok : (base r).cc = 0)
     (hst : (base status).cc = 0) :
     MultiSafeOn Φ base (andWait inProgress ((sendChecked r).bind fun _ => .done ())
-      (waitLong status busy polls)) :=
-  andWait_ms base Φ inProgress r _ hok (waitLong_ms base Φ status busy polls)
-    (fun n => waitLong_pure_ok base status busy hst polls n)
+      (waitLongV true status busy failed polls)) :=
+  andWait_ms' base Φ inProgress r _ hok
+    (ms_of_checked Φ base _ (waitLongV_checked true status busy failed polls))
+    (fun n => waitLongV_pure base true status busy failed hst polls n)
 
 theorem upload_binary_multi_safe (Φ : (Nat → Option Nat) → Prop) (base : Req → Rsp) (inProgress : Nat)
-    (status : Req) (busy : Rsp → Bool) (polls : Nat) (blocks : List Req)
+    (status : Req) (busy failed : Rsp → Bool) (polls : Nat) (blocks : List Req)
     (hok : ∀ b ∈ blocks, (base b).cc = 0) (hst : (base status).cc = 0) :
-    MultiSafeOn Φ base (uploadBinary inProgress (waitLong status busy polls) blocks) :=
-  uploadBinary_ms base Φ inProgress _ (waitLong_ms base Φ status busy polls)
-    (fun n => waitLong_pure_ok base status busy hst polls n) blocks hok
+    MultiSafeOn Φ base (uploadBinary inProgress (waitLongV true status busy failed polls) blocks) :=
+  uploadBinary_ms' base Φ inProgress _
+    (ms_of_checked Φ base _ (waitLongV_checked true status busy failed polls))
+    (fun n => waitLongV_pure base true status busy failed hst polls n) blocks hok
 
 /-- fru.read_fru_data's loop under any fault set (every refusal costs two bytes of request
 size, so the fuel accounts for the request size as well). -/
@@ -725,11 +825,25 @@ example : ∀ area, area ≤ 10 → FruStorage demoMk (·.data.headD 0) (·.data
 example : (table.filter fun op => op.pub && isCheckedShape op.shape).length ≥ 100 := by decide
 example : (table.filter fun op => op.pub && decide (op.shape = .loop)).length ≥ 20 := by decide
 
--- HPM: 0x80 is turned into polling and success, any other code into HpmError
+-- HPM: 0x80 is turned into polling - and into success when the status reports the end with 00h -,
+-- any other code into HpmError
 example : outcome (andWait 0x80 ((sendChecked ⟨1, []⟩).bind fun _ => .done ())
-    (waitLong ⟨2, []⟩ (fun _ => false) 3)) (faultDev echo 0 0x80) 0 = .ok () := by decide
+    (waitLongV true ⟨2, []⟩ (fun _ => false) (fun _ => false) 3)) (faultDev echo 0 0x80) 0 = .ok () := by decide
 example : outcome (andWait 0x80 ((sendChecked ⟨1, []⟩).bind fun _ => .done ())
-    (waitLong ⟨2, []⟩ (fun _ => false) 3)) (faultDev echo 0 0xD5) 0 = .error .hpmError := by decide
+    (waitLongV true ⟨2, []⟩ (fun _ => false) (fun _ => false) 3)) (faultDev echo 0 0xD5) 0 = .error .hpmError := by decide
+-- the status reports that the long duration command FAILED: intended HpmError, as shipped "success";
+-- the hypotheses of hpm_long_failure_is_hpm_error / hpm_and_wait_as_shipped_counterexample hold for it
+example : outcome (andWait 0x80 ((sendChecked ⟨1, []⟩).bind fun _ => .done ())
+    (waitLongV true ⟨2, []⟩ (fun _ => false) (fun _ => true) 3)) (faultDev echo 0 0x80) 0 = .error .hpmError := by decide
+example : outcome (andWait 0x80 ((sendChecked ⟨1, []⟩).bind fun _ => .done ())
+    (waitLongV false ⟨2, []⟩ (fun _ => false) (fun _ => true) 3)) (faultDev echo 0 0x80) 0 = .ok () := by decide
+example : (echo ⟨2, []⟩).cc = 0 ∧
+    Spec.HpmLong.longEnd (fun _ => false) (fun _ => true) (echo ⟨2, []⟩) ≠ .succeeded := by decide
+-- still "in progress" when the three polls the clock allows are used up
+example : outcome (andWait 0x80 ((sendChecked ⟨1, []⟩).bind fun _ => .done ())
+    (waitLongV true ⟨2, []⟩ (fun _ => true) (fun _ => false) 3)) (faultDev echo 0 0x80) 0 = .error .hpmError := by decide
+example : outcome (andWait 0x80 ((sendChecked ⟨1, []⟩).bind fun _ => .done ())
+    (waitLongV false ⟨2, []⟩ (fun _ => true) (fun _ => false) 3)) (faultDev echo 0 0x80) 0 = .ok () := by decide
 
 -- intended componentProps on the counter-example's input: the code is reported
 example : outcome (componentProps true 0x83 (·.data) [⟨1, [0]⟩, ⟨1, [1]⟩]) (faultDev echo 1 0xC1) 0
